@@ -128,9 +128,9 @@ func c19GenRequests(t *rapid.T, big bool, label string) corev1.ResourceList {
 	return c19RL(cpu, mem, gpu)
 }
 
-func c19NewReservation(t *rapid.T, idx int) *schedulingv1alpha1.Reservation {
+func c19NewReservation(t *rapid.T, idx int, name string) *schedulingv1alpha1.Reservation {
 	r := &schedulingv1alpha1.Reservation{}
-	r.Name = fmt.Sprintf("r%d", idx)
+	r.Name = name // names are reused after a deletion (controller / template managed reservations); the uid never is
 	r.UID = types.UID(fmt.Sprintf("uid-r%d", idx))
 	req := c19GenRequests(t, true, "reserve")
 	tpl := &corev1.PodTemplateSpec{}
@@ -141,9 +141,11 @@ func c19NewReservation(t *rapid.T, idx int) *schedulingv1alpha1.Reservation {
 	r.Spec.TTL = &metav1.Duration{Duration: time.Hour}
 	r.Spec.AllocateOnce = ptr.To(rapid.IntRange(0, 3).Draw(t, "allocateOnce") == 0)
 	r.Spec.AllocatePolicy = rapid.SampledFrom([]schedulingv1alpha1.ReservationAllocatePolicy{"", schedulingv1alpha1.ReservationAllocatePolicyAligned, schedulingv1alpha1.ReservationAllocatePolicyRestricted}).Draw(t, "allocatePolicy")
-	if r.Spec.AllocatePolicy == schedulingv1alpha1.ReservationAllocatePolicyRestricted && rapid.Bool().Draw(t, "restrictedOptions") {
-		// only some of the reserved resources are restricted (and accounted)
-		_ = apiext.SetReservationRestrictedOptions(r, &apiext.ReservationRestrictedOptions{Resources: []corev1.ResourceName{corev1.ResourceCPU}})
+	if rapid.Bool().Draw(t, "restrictedOptions") {
+		// Only some of the reserved resources are restricted (and accounted) - for a Restricted reservation. The
+		// annotation may also sit on a reservation with another policy, where it is documented to be ignored.
+		res := rapid.SampledFrom([][]corev1.ResourceName{{corev1.ResourceCPU}, {corev1.ResourceCPU}, {corev1.ResourceMemory}, {corev1.ResourceCPU, corev1.ResourceMemory}, {apiext.ResourceGPU}}).Draw(t, "restrictedResources")
+		_ = apiext.SetReservationRestrictedOptions(r, &apiext.ReservationRestrictedOptions{Resources: res})
 	}
 	r.Status.Phase = schedulingv1alpha1.ReservationPending
 	return r
@@ -177,8 +179,8 @@ func (o c19Obj) copy() c19Obj {
 
 func (o c19Obj) String() string {
 	if o.Resv != nil {
-		return fmt.Sprintf("reservation %s{phase=%q node=%q allocatable=%s once=%v policy=%q terminating=%v}", o.Resv.Name, o.Resv.Status.Phase, o.Resv.Status.NodeName,
-			c19RLStr(o.Resv.Status.Allocatable), ptr.Deref(o.Resv.Spec.AllocateOnce, true), o.Resv.Spec.AllocatePolicy, o.Resv.DeletionTimestamp != nil)
+		return fmt.Sprintf("reservation %s/%s{phase=%q node=%q allocatable=%s once=%v policy=%q restrictedOptions=%s terminating=%v}", o.Resv.Name, o.Resv.UID, o.Resv.Status.Phase, o.Resv.Status.NodeName,
+			c19RLStr(o.Resv.Status.Allocatable), ptr.Deref(o.Resv.Spec.AllocateOnce, true), o.Resv.Spec.AllocatePolicy, o.Resv.Annotations[apiext.AnnotationReservationRestrictedOptions], o.Resv.DeletionTimestamp != nil)
 	}
 	return fmt.Sprintf("pod %s{phase=%q node=%q req=%s allocated=%s}", o.Pod.Name, o.Pod.Status.Phase, o.Pod.Spec.NodeName,
 		c19RLStr(o.Pod.Spec.Containers[0].Resources.Requests), o.Pod.Annotations[apiext.AnnotationReservationAllocated])
@@ -504,6 +506,8 @@ func TestVerifC19ReservationReplay(t *testing.T) {
 		sawMulti, sawDup, sawPodFinished, sawSelfEvent, sawAnyOrder, sawDeadResv, sawOnce, sawRestricted, sawIndexDiff := false, false, false, false, false, false, false, false, false
 		maxAssigned, checks := 0, 0
 		sawDeleted, sawEarly, sawTerminating, sawTerminatingWithPods := false, false, false, false
+		sawNameReused, sawIgnoredOptions, sawStale, sawStaleSameName := false, false, false, false
+		deletedByName := map[string][]types.UID{} // reservation name -> uids of deleted reservations that carried it
 
 		sorted := func(pred func(types.UID, c19Obj) bool) []types.UID {
 			var out []types.UID
@@ -672,8 +676,31 @@ func TestVerifC19ReservationReplay(t *testing.T) {
 			if dead {
 				return
 			}
-			r := c19NewReservation(t, next)
+			// a name is free when no Reservation object (of any phase) carries it; freed names are reused
+			inUse := map[string]bool{}
+			for _, o := range persisted {
+				if o.Resv != nil {
+					inUse[o.Resv.Name] = true
+				}
+			}
+			var free []string
+			for _, n := range []string{"rn0", "rn1", "rn2"} {
+				if !inUse[n] {
+					free = append(free, n)
+				}
+			}
+			name := fmt.Sprintf("r%d", next)
+			if len(free) > 0 {
+				name = rapid.SampledFrom(free).Draw(t, "reservationName")
+			}
+			r := c19NewReservation(t, next, name)
 			next++
+			if len(deletedByName[name]) > 0 {
+				sawNameReused = true
+			}
+			if _, has := r.Annotations[apiext.AnnotationReservationRestrictedOptions]; has && r.Spec.AllocatePolicy != schedulingv1alpha1.ReservationAllocatePolicyRestricted {
+				sawIgnoredOptions = true
+			}
 			node := rapid.SampledFrom(c19Nodes).Draw(t, "node")
 			_ = w.indexer.Add(r.DeepCopy())
 			w.rh.OnAdd(r.DeepCopy(), false) // pending: ignored by the cache
@@ -681,11 +708,13 @@ func TestVerifC19ReservationReplay(t *testing.T) {
 			cs := framework.NewCycleState()
 			cs.Write(stateKey, &stateData{})
 			if st := w.plg.Reserve(ctx, cs, reservePod, node); !st.IsSuccess() {
+				_ = w.indexer.Delete(r)
 				hist = append(hist, fmt.Sprintf("reserve %s -> %s", r.Name, st.Message()))
 				return
 			}
 			if rapid.IntRange(0, 7).Draw(t, "bindFails") == 0 {
 				w.plg.Unreserve(ctx, cs, reservePod, node)
+				_ = w.indexer.Delete(r)
 				hist = append(hist, fmt.Sprintf("reserve %s on %s, bind failed, unreserved", r.Name, node))
 				return
 			}
@@ -716,6 +745,17 @@ func TestVerifC19ReservationReplay(t *testing.T) {
 			}
 			pod := c19NewPod(t, next)
 			next++
+			// The pod may already carry a reservation-allocated annotation of a reservation that no longer exists: an
+			// earlier binding cycle applied its pre-bind patch, failed, and the clean-up patch did not get through
+			// (unreservePod gives up silently on API errors), or the pod was created from a copy of another pod.
+			staleName := ""
+			if names := vk.SortedKeys(deletedByName); len(names) > 0 && rapid.IntRange(0, 2).Draw(t, "staleAnnotation") == 0 {
+				staleName = rapid.SampledFrom(names).Draw(t, "staleName")
+				gone := &schedulingv1alpha1.Reservation{}
+				gone.Name, gone.UID = staleName, rapid.SampledFrom(deletedByName[staleName]).Draw(t, "staleUID")
+				apiext.SetReservationAllocated(pod, gone)
+				sawStale = true
+			}
 			// nominate any reservation the live cache considers matchable (the nominator's choice is not the subject here)
 			var candidates []types.UID
 			for _, u := range sorted(func(u types.UID, o c19Obj) bool { return o.Resv != nil && active[u] }) {
@@ -728,6 +768,11 @@ func TestVerifC19ReservationReplay(t *testing.T) {
 			var ruid types.UID
 			if useResv {
 				ruid = rapid.SampledFrom(candidates).Draw(t, "reservation")
+				for _, cu := range candidates { // a re-created reservation of the same name is the likely match for such a pod
+					if staleName != "" && persisted[cu].Resv.Name == staleName && rapid.IntRange(0, 3).Draw(t, "preferSameName") > 0 {
+						ruid = cu
+					}
+				}
 				node = persisted[ruid].Resv.Status.NodeName
 				w.fakeNm.AddNominatedReservation(pod, node, w.cache.getReservationInfoByUID(ruid))
 			}
@@ -760,6 +805,9 @@ func TestVerifC19ReservationReplay(t *testing.T) {
 			persisted[pod.UID] = o
 			if useResv {
 				assigned[pod.UID] = ruid
+				if staleName != "" && persisted[ruid].Resv.Name == staleName {
+					sawStaleSameName = true
+				}
 			}
 			w.fakeNm.RemoveNominatedReservations(pod)
 			if selfEvent {
@@ -861,6 +909,7 @@ func TestVerifC19ReservationReplay(t *testing.T) {
 					w.rh.OnDelete(old.Resv.DeepCopy())
 					w.cache.DeleteReservation(old.Resv.DeepCopy())
 					_ = w.indexer.Delete(old.Resv)
+					deletedByName[old.Resv.Name] = append(deletedByName[old.Resv.Name], u)
 					delete(persisted, u)
 				} else {
 					n := old.copy()
@@ -912,6 +961,10 @@ func TestVerifC19ReservationReplay(t *testing.T) {
 		c.ClassIf(sawDeleted, "pod-deleted")
 		c.ClassIf(sawEarly, "replay:add-unbound-then-bind-update")
 		c.ClassIf(sawTerminating, "reservation-terminating-but-available")
+		c.ClassIf(sawNameReused, "reservation-name-reused-with-new-uid")
+		c.ClassIf(sawIgnoredOptions, "restricted-options-on-non-restricted-reservation")
+		c.ClassIf(sawStale, "pod-with-stale-reservation-allocated-annotation")
+		c.ClassIf(sawStaleSameName, "stale-annotation-names-the-re-created-reservation-the-pod-is-bound-to")
 		c.ClassIf(sawTerminatingWithPods, "terminating-reservation-with-assigned-pods")
 		c.ClassIf(sawSelfEvent, "live-saw-own-bind-event")
 		c.ClassIf(sawAnyOrder, "pod-event-before-reservation")
